@@ -19,6 +19,20 @@
 From P2 Require Import Base.Prelude Lex.Token Syn.Ast Syn.Parse Syn.Render.
 Local Open Scope N_scope.
 
+(* Some [f x1; ...; f xn] if every f xi is defined (left to right) *)
+Section OMap.
+Context {A B : Type}.
+Variable f : A -> option B.
+Fixpoint omap (l : list A) : option (list B) :=
+  match l with
+  | [] => Some []
+  | x :: r => match f x with
+              | Some v => match omap r with Some vs => Some (v :: vs) | None => None end
+              | None => None
+              end
+  end.
+End OMap.
+
 Section Generic.
 Variable V : Type.
 
@@ -237,6 +251,16 @@ Definition static_target (f : gast) : option sfun :=
   | _ => None
   end.
 
+(* genArgList(a, gc, 0): argument i is compiled with gc.reserve(i) *)
+Section CheckArgs.
+Variable check1 : list str -> gast -> bool.
+Fixpoint check_args (am : list str) (l : list gast) (i : nat) : bool :=
+  match l with
+  | [] => true
+  | x :: r => check1 (reserve am i) x && check_args am r (S i)
+  end.
+End CheckArgs.
+
 Fixpoint gen_check (am : list str) (a : gast) : bool :=
   match a with
   | GConst _ => true
@@ -253,14 +277,9 @@ Fixpoint gen_check (am : list str) (a : gast) : bool :=
   | GUn _ x => gen_check am x
   | GOp _ x y => gen_check am x && gen_check am y
   | GCall f args =>
-      let fix go (l : list gast) (i : nat) : bool :=
-        match l with
-        | [] => true
-        | x :: r => gen_check (reserve am i) x && go r (S i)
-        end in
       match static_target f with
-      | Some fu => negb (arity_mismatch fu (length args)) && go args O
-      | None => gen_check am f && go args O
+      | Some fu => negb (arity_mismatch fu (length args)) && check_args gen_check am args O
+      | None => gen_check am f && check_args gen_check am args O
       end
   | GOther => false
   end.
@@ -275,6 +294,24 @@ Definition st_set (n : nat) (v : V) (data : list V) : option (list V) :=
   else None.
 
 Definition lift (r : option V) : xres := match r with Some v => XOk v | None => XErr end.
+
+(* for i: v := argFunc_i(st); st.Push(v)   - argument i compiled with gc.reserve(i); None = all pushed *)
+Section ExecArgs.
+Variable exec1 : list str -> gast -> list V -> nat -> xres * list V.
+Fixpoint exec_args (am : list str) (size : nat) (l : list gast) (i : nat) (data : list V) : option xres * list V :=
+  match l with
+  | [] => (None, data)
+  | x :: r =>
+      match exec1 (reserve am i) x data (size + i)%nat with
+      | (XOk v, d1) =>
+          match st_set (size + i) v d1 with
+          | Some d2 => exec_args am size r (S i) d2
+          | None => (Some XPanic, d1)
+          end
+      | (rx, d1) => (Some rx, d1)
+      end
+  end.
+End ExecArgs.
 
 Fixpoint exec (am : list str) (a : gast) (data : list V) (size : nat) {struct a} : xres * list V :=
   match a with
@@ -333,23 +370,9 @@ Fixpoint exec (am : list str) (a : gast) (data : list V) (size : nat) {struct a}
       | r => r
       end
   | GCall f args =>
-      (* for i: v := argFunc_i(st); st.Push(v)   - argument i compiled with gc.reserve(i) *)
-      let fix go (l : list gast) (i : nat) (data : list V) : option xres * list V :=
-        match l with
-        | [] => (None, data)
-        | x :: r =>
-            match exec (reserve am i) x data (size + i) with
-            | (XOk v, d1) =>
-                match st_set (size + i) v d1 with
-                | Some d2 => go r (S i) d2
-                | None => (Some XPanic, d1)
-                end
-            | (rx, d1) => (Some rx, d1)
-            end
-        end in
       match static_target f with
       | Some fu =>
-          match go args O data with
+          match exec_args exec am size args O data with
           | (None, d1) =>
               (* fun.Func(st.CreateFrame(n), nil): the frame is data[size .. size+n) *)
               let frame := firstn (length args) (skipn size d1) in
@@ -410,17 +433,12 @@ Fixpoint denote (rho : list (str * V)) (e : sexp) : option V :=
       obind (denote rho a) (fun x => obind (denote rho b) (fun y =>
         obind (find_op op) (fun o => b_impl o x y)))
   | SCall f args =>
-      let fix go (l : list sexp) : option (list V) :=
-        match l with
-        | [] => Some []
-        | x :: r => obind (denote rho x) (fun v => obind (go r) (fun vs => Some (v :: vs)))
-        end in
       match assoc f rho with
       | Some _ => None                                        (* a value is not a function *)
       | None =>
           obind (find_fn f) (fun fu =>
             if arity_mismatch fu (length args) then None
-            else obind (go args) (f_impl fu))
+            else obind (omap (denote rho) args) (f_impl fu))
       end
   | SLet x v i => obind (denote rho v) (fun va => denote ((x, va) :: rho) i)
   | SIf c t e =>
@@ -433,11 +451,24 @@ Fixpoint denote (rho : list (str * V)) (e : sexp) : option V :=
           end))
   end.
 
-(* the environment of a call with named arguments: the last argument is the innermost binding *)
-Definition rho_of (args : list str) (vals : list V) : list (str * V) := rev (combine args vals).
+(* the environment of a call with named arguments (argsList.get: the first of equal names counts) *)
+Definition rho_of (args : list str) (vals : list V) : list (str * V) := combine args vals.
 
 (* ---------- rendering of source expressions ---------- *)
 (* the expression fragment (no let / if) as a rendering tree of Syn/Render.v *)
+Section ToRargs.
+Variable to_rt1 : sexp -> option rt.
+Fixpoint to_rargs (l : list sexp) : option rargs :=
+  match l with
+  | [] => Some RA_nil
+  | [x] => option_map RA_last (to_rt1 x)
+  | x :: r => match to_rt1 x, to_rargs r with
+              | Some a, Some ra => Some (RA_cons a ra)
+              | _, _ => None
+              end
+  end.
+End ToRargs.
+
 Fixpoint to_rt (e : sexp) : option rt :=
   match e with
   | SNum img => Some (RNum img)
@@ -448,17 +479,7 @@ Fixpoint to_rt (e : sexp) : option rt :=
       | Some j, Some l, Some r => Some (RBin j l r)
       | _, _, _ => None
       end
-  | SCall f args =>
-      let fix go (l : list sexp) : option rargs :=
-        match l with
-        | [] => Some RA_nil
-        | [x] => option_map RA_last (to_rt x)
-        | x :: r => match to_rt x, go r with
-                    | Some a, Some ra => Some (RA_cons a ra)
-                    | _, _ => None
-                    end
-        end in
-      option_map (RCall (RIdent f)) (go args)
+  | SCall f args => option_map (RCall (RIdent f)) (to_rargs to_rt args)
   | SLet _ _ _ | SIf _ _ _ => None
   end.
 
@@ -498,4 +519,4 @@ Arguments opt_node {V} _ _. Arguments opt_all {V} _ _ _. Arguments parse_opt {V}
 Arguments static_target {V} _ _. Arguments gen_check {V} _ _ _. Arguments st_set {V} _ _ _.
 Arguments lift {V} _. Arguments exec {V} _ _ _ _ _. Arguments run_gast {V} _ _ _ _.
 Arguments run {V} _ _ _ _ _. Arguments denote {V} _ _ _. Arguments rho_of {V} _ _.
-Arguments to_rt {V} _ _. Arguments flat {V} _ _ _. Arguments obind {A B} _ _.
+Arguments to_rt {V} _ _. Arguments check_args {V} _ _ _ _. Arguments exec_args {V} _ _ _ _ _ _. Arguments flat {V} _ _ _. Arguments obind {A B} _ _.
